@@ -1,8 +1,8 @@
 // C07 correspondence harness: drives the real TCPIP::StreamFollower with real IP/IPv6 + TCP [+ RawPDU] packets.
-//   case attach=<0|1> maxc=<n> maxb=<n> ka=<microseconds> acl=<0|1> ooo=<0|1> [ack=<0..3>] [usesack=<0|1>] [ign=<0..3>] [maxs=<n>] [nocb=1]
+//   case attach=<0|1> maxc=<n> maxb=<n> ka=<microseconds> acl=<0|1> ooo=<0|1> [ack=<0..3>] [usesack=<0|1>] [ign=<0..3>] [maxs=<n>] [nocb=1] [rec=<window>]
 //        ack: Flow::enable_ack_tracking in the new-stream callback (bit 0 client flow, bit 1 server flow);
 //        usesack: AckTracker::use_sack on both flows' trackers there; ign: ignore_client_data (bit 0) / ignore_server_data
-//        (bit 1) there; nocb: no new-stream callback is installed at all (callback_not_set path); maxs: what the check read for DEFAULT_MAX_SACKED_INTERVALS (answered with the compiled value)
+//        (bit 1) there; rec: Stream::enable_recovery_mode(window) there, after the callbacks have been installed; nocb: no new-stream callback is installed at all (callback_not_set path); maxs: what the check read for DEFAULT_MAX_SACKED_INTERVALS (answered with the compiled value)
 //   decl <v4|v6> <src> <sport> <dst> <dport> <isn> <hex>          (oracle only: the byte stream src->dst)
 //   pkt <ts> <v4|v6> <src> <sport> <dst> <dport> <flags> <seq> <ack> <none|-|hex> [mss=<n>] [sack] [sk=<-|edge,edge,..>] [skraw=<hex>]
 //        sk: a SACK option built with TCP::sack (decimal 32-bit edges; `-` = no edges); skraw: a SACK option with arbitrary data
@@ -31,6 +31,7 @@ using Tins::TCPIP::StreamFollower;
 static std::vector<std::string> events;
 static bool cfg_acl = true, cfg_ooo = false, cfg_usesack = false;
 static int cfg_ack = 0, cfg_ign = 0;
+static long long cfg_rec = -1;
 
 static std::string kv(const std::vector<std::string>& w, const std::string& key, const std::string& dflt) {
     for (auto& s : w) if (s.compare(0, key.size() + 1, key + "=") == 0) return s.substr(key.size() + 1);
@@ -111,7 +112,7 @@ static std::string status(const Stream& s) {
       << " ctrk=" << c.ack_tracking_enabled() << " strk=" << v.ack_tracking_enabled()
       << " cak=" << c.ack_tracker().ack_number() << " sak=" << v.ack_tracker().ack_number()
       << " civn=" << c.ack_tracker().acked_intervals().iterative_size() << " sivn=" << v.ack_tracker().acked_intervals().iterative_size()
-      << " civ=" << ivs_of(c) << " siv=" << ivs_of(v);
+      << " civ=" << ivs_of(c) << " siv=" << ivs_of(v) << " rec=" << s.is_recovery_mode_enabled();
     return o.str();
 }
 
@@ -141,6 +142,7 @@ static void install(Stream& s) {
     if (cfg_usesack) { s.client_flow().ack_tracker().use_sack(); s.server_flow().ack_tracker().use_sack(); }
     if (cfg_ign & 1) s.ignore_client_data();
     if (cfg_ign & 2) s.ignore_server_data();
+    if (cfg_rec >= 0) s.enable_recovery_mode(uint32_t(cfg_rec));
 }
 
 static std::unique_ptr<StreamFollower> make_follower(const std::vector<std::string>& w) {
@@ -150,6 +152,7 @@ static std::unique_ptr<StreamFollower> make_follower(const std::vector<std::stri
     cfg_ack = std::stoi(kv(w, "ack", "0"));
     cfg_ign = std::stoi(kv(w, "ign", "0"));
     cfg_usesack = kv(w, "usesack", "0") == "1";
+    cfg_rec = std::stoll(kv(w, "rec", "-1"));
     f->follow_partial_streams(kv(w, "attach", "0") == "1");
     f->max_buffered_chunks_ = size_t(std::stoull(kv(w, "maxc", "512")));
     f->max_buffered_bytes_ = uint32_t(std::stoull(kv(w, "maxb", "3145728")));
